@@ -190,7 +190,9 @@ def main():
     test_table_model()
     test_codecs()
     n = test_determinism(6 if quick else 40)
-    print(f'selftest ok: models, codecs, determinism over {n} plans x (2 worker counts + 2 foreign hash seeds)')
+    print(f'selftest ok: models, codecs, determinism: {n} plans x 2 executions (8 and 3 workers), a sample of them '
+          f'again in fresh interpreters under 2 other hash seeds' + (', and all of them under 2 other hash seeds '
+          f'and with ASLR off' if n >= 100 else ''))
     return 0
 
 
